@@ -32,4 +32,20 @@ fn main() {
     fs::write(dest, out).unwrap();
     println!("cargo:rerun-if-changed=src/cmds");
     println!("cargo:rustc-check-cfg=cfg(calamine_verif)");
+    // optional hooks: a cfg per hook that only newer trees have, so that the harness keeps building
+    // against trees without it (the command answers "no-hook" there)
+    println!("cargo:rustc-check-cfg=cfg(has_get_chain_hook)");
+    let manifest = Path::new(&env::var("CARGO_MANIFEST_DIR").unwrap()).join("Cargo.toml");
+    if let Ok(txt) = fs::read_to_string(&manifest) {
+        if let Some(i) = txt.find("calamine = { path = \"") {
+            let rest = &txt[i + "calamine = { path = \"".len()..];
+            if let Some(j) = rest.find('"') {
+                let cfb = Path::new(&rest[..j]).join("src/cfb.rs");
+                println!("cargo:rerun-if-changed={}", cfb.display());
+                if fs::read_to_string(&cfb).map_or(false, |s| s.contains("pub fn get_chain(")) {
+                    println!("cargo:rustc-cfg=has_get_chain_hook");
+                }
+            }
+        }
+    }
 }
